@@ -14,10 +14,16 @@ def _runs(tier):
     if tier == "quick":
         for n in _names(_TQ):
             runs.append({"harness": "shapes_c03", "args": ["--shape", n, "--mode", "C03", "--dim", "2", "--depth", "2", "--depth-ops", "1", "--consts", "small"], "budget": 600})
+        if "mpq" in _TQ:
+            # transformers on every class of depth 2 of the rational box: a closed and an open bound (of one or two variables)
+            # must meet in one receiver for the propagation code of refine_with_constraint / generalized_affine_image
+            # (seeded change C03-x1 was missed with depth-ops 1; BD shapes / octagons of depth 2 are covered by C04)
+            runs.append({"harness": "shapes_c03", "args": ["--shape", "box_mpq", "--mode", "C03", "--dim", "2", "--depth", "2", "--depth-ops", "2", "--consts", "small", "--what", "ops"], "budget": 600})
         return runs
     # all 27 instantiations (nine bound types) at the bounds of the quick tier
     for n in _names(_TT):
         runs.append({"harness": "shapes_c03_all", "args": ["--shape", n, "--mode", "C03", "--dim", "2", "--depth", "2", "--depth-ops", "1", "--consts", "small"], "budget": 1500})
+    runs.append({"harness": "shapes_c03_all", "args": ["--shape", "box_mpq", "--mode", "C03", "--dim", "2", "--depth", "2", "--depth-ops", "2", "--consts", "small", "--what", "ops"], "budget": 1500})
     if _os.environ.get("VERIF_C03_DEEP"):
         # deeper configuration (full boundary alphabet; transformers on every class of depth 2).  Run once on 2026-09-28:
         # 126.6M transitions, 15 further finding groups (overflow / saturation families of native-integer and floating
